@@ -246,7 +246,9 @@ func (t *tb) term(v ssa.Value) aff {
 	return r
 }
 
-func (t *tb) atomOf(format string, args ...interface{}) aff { return affAtom(fmt.Sprintf(format, args...)) }
+func (t *tb) atomOf(format string, args ...interface{}) aff {
+	return affAtom(fmt.Sprintf(format, args...))
+}
 
 func (t *tb) term1(v ssa.Value) aff {
 	if a, ok := t.subst[v]; ok {
@@ -650,7 +652,6 @@ func (t *tb) byteCompose(root *ssa.BinOp) (aff, bool) {
 	return aff{}, false
 }
 
-
 // loopIdiom recognises the two byte-accumulation loops with a constant trip count and returns the value of the
 // accumulator after the loop as a closed term:
 //
@@ -811,7 +812,6 @@ func (t *tb) loopIdiom(acc *ssa.Phi) (aff, bool) {
 	return aff{}, false
 }
 
-
 // parseSimpleAff parses terms of the form "name", "name+k", "k" (as printed by aff.String for one atom).
 func parseSimpleAff(s string) (aff, error) {
 	if k, err := strconv.ParseInt(s, 10, 64); err == nil {
@@ -827,7 +827,6 @@ func parseSimpleAff(s string) (aff, error) {
 	}
 	return aff{}, fmt.Errorf("not simple")
 }
-
 
 // elemRef names the element an IndexAddr denotes, looking through re-slicing: (x[lo:hi])[i] is x[lo+i].
 func (t *tb) elemRef(ia *ssa.IndexAddr) (string, aff) {
@@ -897,7 +896,6 @@ func (t *tb) leqZero(c *ssa.BinOp, negate bool) (string, bool) {
 	}
 	return "", false
 }
-
 
 // cycleMark is the prefix of the placeholder atom for a value that depends on itself (a loop the idioms do not cover);
 // it carries the inlining depth so that a callee's own loops can be told from loop terms passed in as arguments.
